@@ -1,5 +1,5 @@
 CONSTANTS
-  MaxSize = 16
+  MaxSize = 24
   Workers = {1, 2, 3, 4}
   MaxErrors = 1000000
   ErrKinds = {"429", "5xx", "net", "unavail", "deadline", "canceled", "400"}
